@@ -8,7 +8,6 @@ import (
 	"io"
 	"log/slog"
 	"net/http"
-	"net/http/httptest"
 	"path"
 	"strconv"
 	"sync"
@@ -96,7 +95,10 @@ func (cm *cmafIngesterMgr) NewCmafIngester(req CmafIngesterSetup) (nr uint64, er
 
 	log := slog.Default().With(slog.Uint64("ingester", nr))
 
-	mpdReq := httptest.NewRequest("GET", req.URL, nil)
+	mpdReq, err := http.NewRequest("GET", req.URL, nil) // httptest.NewRequest panics for a bad URL
+	if err != nil {
+		return 0, fmt.Errorf("bad livesim URL %q: %w", req.URL, err)
+	}
 	if req.TestNowMS != nil {
 		mpdReq.URL.RawQuery = fmt.Sprintf("nowMS=%d", *req.TestNowMS)
 	}
